@@ -6,7 +6,7 @@ from __future__ import annotations
 import copy
 import random
 
-from .. import e1, e2, gen, seams
+from .. import e1, e2, gen, models, seams
 from ..core import HarnessError
 from ..runner import mix, result
 
@@ -31,7 +31,9 @@ COMPONENTS = {
 }
 EXPECTED_PROBES = ["returned", "empty_input_partition", "more_partitions_than_rows",
                    "independence_compared", "missing_rows_present",
-                   "packed_after_cached_bounds_and_mask"]
+                   "packed_after_cached_bounds_and_mask",
+                   "input_range_partitioned_along_curve_unsorted_inside",
+                   "polygon_ring_outside_first_ring"]
 
 
 def cases(tier, base_seed):
@@ -52,6 +54,7 @@ def cases(tier, base_seed):
             if r < 0.6:
                 return {"mode": "concat_empty", "k": k}
             return {"mode": "even", "k": k}
+        loose = rng.random() < 0.15 and gen.loosen_rings(frame, rng)
         if rng.random() < 0.12:
             gen.make_collinear(frame, rng)      # total extent degenerate in one axis only
         if rng.random() < 0.15:
@@ -59,11 +62,38 @@ def cases(tier, base_seed):
         pre = None
         if rng.random() < 0.3:
             pre = {"warm": rng.random() < 0.7, "mod": rng.choice((2, 3, 4)), "rem": rng.randint(0, 1)}
-        yield {"seed": seed, "frame": frame, "parts": parts(), "parts2": parts(), "pre": pre,
-               "npartitions": rng.choice((1, 2, 3, 4, 5, 8, 11, 16)),
-               "p": rng.choice((1, 2, 3, 5, 8, 10, 15, 20)),
-               "sim": e1.gen_sim_cfg(rng)}
+        case = {"seed": seed, "frame": frame, "parts": parts(), "parts2": parts(), "pre": pre,
+                "npartitions": rng.choice((1, 2, 3, 4, 5, 8, 11, 16)),
+                "p": rng.choice((1, 2, 3, 5, 8, 10, 15, 20)),
+                "sim": e1.gen_sim_cfg(rng), "loose_rings": bool(loose)}
+        if rng.random() < 0.15:
+            # input that is already range-partitioned along the curve (every distance in one
+            # input partition below every distance in the next) but unsorted inside the
+            # partitions: what an earlier spatial split, or a coarser packing, leaves behind
+            hr = _hilbert_ranges(rng, frame, case["p"])
+            if hr:
+                case["parts"] = {"mode": "splits", "splits": hr, "ranges": True}
+        yield case
         i += 1
+
+
+def _hilbert_ranges(rng, frame, p):
+    d = e1.expected_distances(frame, p)
+    if d is None:
+        return None
+    d = [models.cell(v) for v in d]
+    order = sorted(range(len(d)), key=lambda i: (d[i], i))
+    cuts = [j for j in range(1, len(order)) if d[order[j]] != d[order[j - 1]]]
+    if not cuts:
+        return None
+    chosen = sorted(rng.sample(cuts, rng.randint(1, min(4, len(cuts)))))
+    edges = [0] + chosen + [len(order)]
+    out = []
+    for a, b in zip(edges, edges[1:]):
+        chunk = order[a:b]
+        rng.shuffle(chunk)
+        out.append(chunk)
+    return out
 
 
 def warmup():
@@ -111,6 +141,10 @@ def run_case(case):
     col = gen.col_of(spec, spec["active"])
     if any(v is None for v in col["values"]):
         probes["missing_rows_present"] = 1
+    if case.get("loose_rings"):
+        probes["polygon_ring_outside_first_ring"] = 1
+    if case["parts"].get("ranges"):
+        probes["input_range_partitioned_along_curve_unsorted_inside"] = 1
     if case["parts"]["mode"] == "splits" and any(not s for s in case["parts"]["splits"]):
         probes["empty_input_partition"] = 1
     if case["parts"]["mode"] in ("repartition", "concat_empty"):
